@@ -9,8 +9,10 @@ class name.
 Oracle on the real code (shares nothing with the model): the defining predicate is evaluated
 by brute force on all words up to a length bound over Σ plus words carrying a foreign symbol,
 and compared with the real `accepts_input`; minimality, where the docstring promises it and
-the input is in the property's domain, by an independent Myhill–Nerode count (Moore partition
-refinement over the real object's dicts, `nerode_size`) compared with `len(states)`.
+the input satisfies the hypotheses of the Lean minimality theorems (`minimality_in_domain`, one
+line per theorem), by an independent Myhill–Nerode count (Moore partition refinement over the
+real object's dicts, `nerode_size`) compared with `len(states)`.  Inputs on which the Lean error
+theorems say the constructor raises (`expected_error`) must raise that exception.
 """
 from __future__ import annotations
 
@@ -21,7 +23,7 @@ from typing import Any, Dict, List, Optional, Tuple
 from automata.base.exceptions import AutomatonException
 from automata.fa.dfa import DFA
 
-from harness.common import Ctx, InfraError, Names, Toks, dfa_canon, toks
+from harness.common import Ctx, InfraError, Names, Toks, dfa_canon, nfa_iso, toks
 
 LEVEL = "proof"
 DRV = "drv_dfa_ctor"
@@ -29,7 +31,9 @@ RULE = ("a case = (constructor, alphabet, pattern / pattern set in live iteratio
         "parameters, flags); corpus of past defects and mutant killers, then bounded-exhaustive "
         "(all patterns ≤4 over {a,b} and ≤3 over {a,b,c}, all pattern sets of ≤3 patterns of "
         "length ≤3 over {a,b}, all flags, numeric parameters ≤5, all finite languages of words "
-        "≤2 over {a,b}), then shaped random (periodic / self-overlapping patterns of every border "
+        "≤2 over {a,b}, all pairs of patterns of length 2…4 in both insertion orders, all patterns ≤3 "
+        "with a symbol outside the alphabet, every constructor over the empty alphabet, negative "
+        "min_length / max_length), then shaped random (periodic / self-overlapping patterns of every border "
         "length, sets where one pattern is a prefix/suffix/infix of another, patterns with symbols "
         "outside the alphabet, 1–4 symbol alphabets); every case: real DFA = model DFA, and the "
         "real DFA's verdict = brute-force predicate on all words up to the bound (+ foreign "
@@ -38,11 +42,16 @@ RULE = ("a case = (constructor, alphabet, pattern / pattern set in live iteratio
         "arguments)")
 ASSUMPTIONS = [
     "symbols are single characters; alphabets are Python sets (no repeated symbol)",
-    "lengths / positions are ints; min_length ≥ 0 (a negative min_length with a max_length makes the "
-    "constructor raise InvalidStateError: outside the domain 'lengths are naturals')",
-    "count_mod remainders ⊆ range(k) (others raise InvalidStateError: outside the domain)",
-    "minimality is claimed only for non-empty patterns over the alphabet, |Σ| ≥ 2, non-degenerate "
-    "numeric parameters (min ≤ max, at least one counted symbol in Σ), as the property states",
+    "lengths / positions are ints; of_length: every (min_length, max_length, symbols_to_count) is in the "
+    "domain — the one class on which the constructor raises (negative min_length with a max_length ≥ 0 "
+    "and a counted symbol in Σ: InvalidStateError) is stated as theorem C15_of_length_negative_min and "
+    "checked as an announced error",
+    "count_mod remainders ⊆ range(k) (others raise InvalidStateError: theorem C15_count_mod_bad_remainder, "
+    "checked as an announced error); a pattern / word symbol outside Σ makes from_prefix, from_subsequence, "
+    "from_finite_language raise a library exception (theorems C15_*_foreign, checked as announced errors); "
+    "from_substring / from_suffix / from_substrings accept such patterns (language theorems without hypothesis)",
+    "minimality is claimed only for non-empty patterns over the alphabet, |Σ| ≥ 2, as the property "
+    "states; of_length: for ALL numeric parameters and alphabets (C15_of_length_minimal has no hypothesis)",
 ]
 EXPLANATION = ("Theorems C15_* state, for every alphabet / pattern / parameter, that the model's constructor "
                "returns a valid DFA accepting exactly the words over Σ that satisfy the predicate (or its "
@@ -308,33 +317,51 @@ def expected_error(case: dict) -> Optional[str]:
             return "ValueError"
         if case["symbol"] not in sy:
             return "InvalidSymbolError"
-    if c == "of_length" and case["max"] is not None and case["min"] < 0 and case["max"] >= case["min"]:
-        return "InvalidStateError"  # outside the domain (negative length)
+    if c == "of_length":
+        # C15_of_length_negative_min: the only raising inputs — a negative min_length with a
+        # non-negative max_length and a counted symbol in Σ (final_states would contain negatives)
+        cnt = sy if case.get("count") is None else set(case["count"])
+        if case["max"] is not None and case["min"] < 0 <= case["max"] and (cnt & sy):
+            return "InvalidStateError"
     return None
 
 
 def minimality_in_domain(case: dict) -> bool:
-    """Is this input inside the minimality claim of the property ('where the documentation promises
-    the minimal DFA … for non-empty patterns over alphabets of at least two symbols')?"""
+    """Is this input inside the hypotheses of the Lean minimality theorems?  (They cover the
+    property's claim 'where the documentation promises the minimal DFA … for non-empty patterns over
+    alphabets of at least two symbols' and more: one-symbol and empty alphabets, empty patterns,
+    all numeric parameters.)  One line per theorem:"""
     c = case["ctor"]
     if c not in MINIMAL_PROMISED:
         return False
     sy = set(case["syms"])
     if c in ("universal_language", "empty_language"):
-        return True
-    if len(sy) < 2:
-        return False
-    if c in ("from_prefix", "from_suffix", "from_substring", "from_subsequence"):
-        return len(case["pattern"]) >= 1 and set(case["pattern"]) <= sy
+        return True                                   # C15_universal, C15_empty: no hypothesis
     if c == "of_length":
-        cnt = sy if case.get("count") is None else set(case["count"])
-        if not (cnt & sy) or case["min"] < 0:
+        return True                                   # C15_of_length_minimal: no hypothesis (fix bcfb456)
+    if c in ("from_suffix", "from_substring", "from_subsequence"):
+        # C15_from_substring_minimal / C15_from_subsequence_minimal: pattern over Σ (the empty pattern
+        # and one-symbol / empty alphabets included)
+        return set(case["pattern"]) <= sy
+    if c == "from_prefix":
+        p = case["pattern"]
+        if not set(p) <= sy:
             return False
-        return case["max"] is None or case["min"] <= case["max"]  # F15: degenerate parameters
+        if case["as_partial"] and case["contains"]:
+            return True                               # C15_from_prefix_minimal, partial form: pattern over Σ
+        # complete form: p ≠ '' and a symbol of Σ different from p[0]
+        return len(p) >= 1 and any(b != p[0] for b in sy)
     if c in ("nth_from_start", "nth_from_end"):
+        # C15_nth_minimal_all: every alphabet containing the symbol (one-symbol delegation included)
         return case["n"] >= 1 and case["symbol"] in sy
     if c == "from_finite_language":
-        return all(set(w) <= sy for w in case["language"])
+        # C15_from_finite_language_minimal: words over Σ; partial form of a non-empty language, or
+        # (complete form / empty language) over a non-empty alphabet
+        if not all(set(w) <= sy for w in case["language"]):
+            return False
+        if case["as_partial"] and len(case["language"]) > 0:
+            return True
+        return len(sy) >= 1
     return False
 
 
@@ -490,6 +517,19 @@ def describe(case: dict) -> str:
     return f"DFA.{c}({', '.join(f'{k}={v!r}' for k, v in args.items())})"
 
 
+def _same_up_to_renaming(a: dict, b: dict) -> bool:
+    try:
+        if a.get("partial") != b.get("partial") or len(a["states"]) > 60:
+            return False
+
+        def as_nfa(p):
+            return dict(states=p["states"], syms=p["syms"], finals=p["finals"], init=p["init"],
+                        trans={q: {x: [t] for x, t in row.items()} for q, row in p["trans"].items()})
+        return nfa_iso(as_nfa(a), as_nfa(b))
+    except Exception:  # noqa: BLE001
+        return False
+
+
 def check_case(ctx: Ctx, case: dict, origin: str, bound: Optional[int] = None) -> None:
     c = case["ctor"]
     res, info = real_call(case)
@@ -523,6 +563,12 @@ def check_case(ctx: Ctx, case: dict, origin: str, bound: Optional[int] = None) -
             pl = real_plain(d, rank)
             impl_view = ("ok", pl)
             same = mod == impl_view
+            if not same and mod[0] == "ok" and _same_up_to_renaming(pl, mod[1]):
+                # the same DFA up to a bijective renaming of its states (e.g. another name for the
+                # added trap state): C15 fixes the language, validity and (where promised) the
+                # number of states of the result, not the names — all invariant under renaming
+                same = True
+                ctx.stat("result_equal_to_model_up_to_state_renaming")
     # --- property on the real result
     fails = evaluate_property(ctx, case, res, bound)
     # --- bookkeeping
@@ -609,9 +655,38 @@ CORPUS: List[dict] = [
     # F20 (fixed e721303): end_state collision (pattern with a symbol outside the alphabet)
     dict(ctor="from_substrings", syms="ab", patterns=["cc", "ab"], ordered=True, contains=True, must_be_suffix=False),
     dict(ctor="from_substrings", syms="ab", patterns=["bbc", "aac"], ordered=True, contains=True, must_be_suffix=False),
-    # F15 (outside the minimality claim): degenerate of_length parameters
+    # F15 (fixed bcfb456): degenerate of_length parameters (empty range / nothing counted) were not minimal
     dict(ctor="of_length", syms="a", min=3, max=1, count=None),
+    dict(ctor="of_length", syms="ab", min=2, max=3, count="c"),
     dict(ctor="of_length", syms="ab", min=1, max=2, count=""),
+    dict(ctor="of_length", syms="ab", min=0, max=2, count="c"),
+    dict(ctor="of_length", syms="ab", min=0, max=None, count=""),
+    dict(ctor="of_length", syms="ab", min=2, max=None, count="#"),
+    dict(ctor="of_length", syms="ab", min=0, max=-1, count=None),
+    dict(ctor="of_length", syms="ab", min=-2, max=-1, count="a"),
+    dict(ctor="of_length", syms="ab", min=-1, max=None, count="a"),
+    dict(ctor="of_length", syms="ab", min=-1, max=1, count="a"),      # the one raising class
+    dict(ctor="of_length", syms="ab", min=-1, max=1, count="c"),      # … not when nothing is counted
+    dict(ctor="of_length", syms="", min=0, max=None, count=None),
+    dict(ctor="of_length", syms="", min=1, max=None, count=None),
+    # round-2 seeded mutants: first BFS depth-first (failure chains across branches, both insertion
+    # orders), pruning of patterns that contain another one (suffix mode), foreign symbol with contains=False
+    dict(ctor="from_substrings", syms="ab", patterns=["abba", "babaa"], ordered=True, contains=True, must_be_suffix=False),
+    dict(ctor="from_substrings", syms="ab", patterns=["babaa", "abba"], ordered=True, contains=True, must_be_suffix=False),
+    dict(ctor="from_substrings", syms="ab", patterns=["abb", "babaab"], ordered=True, contains=False, must_be_suffix=False),
+    dict(ctor="from_substrings", syms="ab", patterns=["babaab", "abb"], ordered=True, contains=True, must_be_suffix=False),
+    dict(ctor="from_substrings", syms="ab", patterns=["bba", "abbb"], ordered=True, contains=True, must_be_suffix=True),
+    dict(ctor="from_substrings", syms="ab", patterns=["abbb", "bba"], ordered=True, contains=True, must_be_suffix=True),
+    dict(ctor="from_substrings", syms="ab", patterns=["a", "aab", "baab"], ordered=True, contains=True, must_be_suffix=True),
+    dict(ctor="from_substrings", syms="ab", patterns=["baab", "aab", "a"], ordered=True, contains=False, must_be_suffix=True),
+    dict(ctor="from_substrings", syms="abc", patterns=["b", "abc"], ordered=True, contains=True, must_be_suffix=True),
+    dict(ctor="from_substrings", syms="abc", patterns=["ab", "abc"], ordered=True, contains=False, must_be_suffix=True),
+    dict(ctor="from_substrings", syms="abc", patterns=["ca", "bcab", "abcabc"], ordered=True, contains=True, must_be_suffix=True),
+    dict(ctor="from_substring", syms="ab", pattern="ac", contains=False, must_be_suffix=False),
+    dict(ctor="from_substring", syms="ab", pattern="ac", contains=False, must_be_suffix=True),
+    dict(ctor="from_suffix", syms="ab", pattern="cb", contains=False),
+    dict(ctor="from_substring", syms="ab", pattern="c", contains=True, must_be_suffix=False),
+    dict(ctor="from_substrings", syms="ab", patterns=["ac", "cb"], ordered=True, contains=False, must_be_suffix=False),
     # killers of the mutants of notes/C15.md
     dict(ctor="from_suffix", syms="ab", pattern="a", contains=True),                       # KMP limit
     dict(ctor="from_suffix", syms="ab", pattern="aba", contains=False),
@@ -652,8 +727,8 @@ def pattern_cases(syms: str, p: str):
 
 def numeric_cases(syms: str, hi: int):
     counts = [None, "", syms[0], syms, syms[-1] + "#"]
-    for mn in range(0, hi + 1):
-        for mx in [None] + list(range(0, hi + 1)):
+    for mn in range(-2, hi + 1):
+        for mx in [None] + list(range(-1 if mn <= 1 else 0, hi + 1)):
             for cnt in counts:
                 yield dict(ctor="of_length", syms=syms, min=mn, max=mx, count=cnt)
     for k in range(-1, hi + 1):
@@ -667,6 +742,33 @@ def numeric_cases(syms: str, hi: int):
             yield dict(ctor="nth_from_end", syms=syms, symbol=s, n=n)
     yield dict(ctor="universal_language", syms=syms)
     yield dict(ctor="empty_language", syms=syms)
+
+
+def empty_alphabet_cases():
+    """Every constructor over Σ = ∅ (the only word is ''): patterns '' (over Σ) and 'a' (foreign)."""
+    for p in ("", "a", "ab"):
+        yield from pattern_cases("", p)
+    for ps in ([], [""], ["a"], ["a", "ab"], ["", "a"]):
+        for c in BOOLS:
+            for sf in BOOLS:
+                yield dict(ctor="from_substrings", syms="", patterns=list(ps), ordered=True, contains=c,
+                           must_be_suffix=sf)
+    for L in ([], [""], ["a"], ["", "a"]):
+        for ap in BOOLS:
+            yield dict(ctor="from_finite_language", syms="", language=list(L), ordered=True, as_partial=ap)
+    for mn in range(-1, 3):
+        for mx in (None, -1, 0, 1, 2):
+            for cnt in (None, "", "a"):
+                yield dict(ctor="of_length", syms="", min=mn, max=mx, count=cnt)
+    for k in range(-1, 4):
+        for r in (None, [], [0], [k - 1], [0, k]):
+            for cnt in (None, "", "a"):
+                yield dict(ctor="count_mod", syms="", k=k, remainders=r, count=cnt)
+    for n in range(0, 3):
+        yield dict(ctor="nth_from_start", syms="", symbol="a", n=n)
+        yield dict(ctor="nth_from_end", syms="", symbol="a", n=n)
+    yield dict(ctor="universal_language", syms="")
+    yield dict(ctor="empty_language", syms="")
 
 
 def rand_pattern(rng, alpha: str, max_len: int) -> str:
@@ -753,6 +855,13 @@ def run(ctx: Ctx):
                 check_case(ctx, case, "exhaustive_pattern")
     ctx.exhaustive("from_prefix / from_suffix / from_substring / from_subsequence: all patterns of length ≤4 over {a,b}, "
                    "≤3 over {a,b,c}, ≤4 over {a}, all flag values; brute-force words ≤7 (binary), ≤5 (ternary), ≤9 (unary) + foreign symbol")
+    for p in words_upto("ab#", 3):
+        if "#" in p:
+            for case in pattern_cases("ab", p):
+                check_case(ctx, case, "exhaustive_foreign_pattern", bound=5)
+    ctx.exhaustive("patterns with a symbol outside the alphabet: all patterns of length ≤3 over {a,b,#} containing #, "
+                   "alphabet {a,b}, all 12 constructor/flag combinations (from_prefix / from_subsequence: the announced "
+                   "library exception; from_substring / from_suffix: the language, both values of contains)")
     pats = list(words_upto("ab", 3))
     set_max = 3
     for k in range(1, set_max + 1):
@@ -773,14 +882,30 @@ def run(ctx: Ctx):
             for sf in BOOLS:
                 check_case(ctx, dict(ctor="from_substrings", syms="ab", patterns=list(perm), ordered=True,
                                      contains=True, must_be_suffix=sf), "exhaustive_set_orders", bound=5)
+    # pairs of longer patterns in BOTH insertion orders: failure links of one branch point into the
+    # other branch at depth ≥ 2 (the BFS order of the first pass matters exactly there)
+    longer = [p for p in words_upto("ab", 4) if len(p) >= 2]
+    for x, y in itertools.combinations(longer, 2):
+        if not thorough and len(x) + len(y) < 6:
+            continue  # covered by the sets of patterns ≤3 above
+        for perm in ((x, y), (y, x)):
+            for sf in BOOLS:
+                check_case(ctx, dict(ctor="from_substrings", syms="ab", patterns=list(perm), ordered=True,
+                                     contains=sf, must_be_suffix=sf), "exhaustive_pair_orders", bound=7)
+    ctx.exhaustive("from_substrings: all pairs of patterns of length 2…4 over {a,b}" + ("" if thorough else " with total length ≥6")
+                   + ", both insertion orders, both modes; brute-force words ≤7")
     for syms in ("ab", "a", "abc"):
         for case in numeric_cases(syms, 5 if (thorough or syms == "ab") else 3):
             if case["ctor"] == "nth_from_end" and case["n"] > 4 and not thorough:
                 continue
             check_case(ctx, case, "exhaustive_numeric", bound={"ab": 7, "a": 9, "abc": 5}[syms])
     ctx.exhaustive("of_length / count_mod / nth_from_start / nth_from_end / universal / empty: all numeric parameters ≤5 "
-                   "(≤3 over {a}, {a,b,c} in the quick tier), k and n from −1/0, remainders ∅/{0}/{k−1}/all/out of range, "
-                   "symbols_to_count None/∅/one/all/with a foreign symbol")
+                   "(≤3 over {a}, {a,b,c} in the quick tier), min_length from −2, max_length from −1, k and n from −1/0, "
+                   "remainders ∅/{0}/{k−1}/all/out of range, symbols_to_count None/∅/one/all/with a foreign symbol")
+    for case in empty_alphabet_cases():
+        check_case(ctx, case, "exhaustive_empty_alphabet", bound=3)
+    ctx.exhaustive("the empty alphabet: every constructor with patterns '' / 'a' / 'ab', pattern sets and languages "
+                   "⊆ {'', 'a', 'ab'}, min −1…2 × max None/−1…2, k −1…3, n 0…2")
     lw = list(words_upto("ab", 2))
     for k in range(0, len(lw) + 1):
         for combo in itertools.combinations(lw, k):
@@ -828,7 +953,7 @@ def run(ctx: Ctx):
         r = rng.random()
         cnt = rng.choice([None, None, syms[0], syms[-1], syms[:2], ""])
         if r < 0.3:
-            mn = rng.randint(0, 9)
+            mn = rng.randint(0, 9) if rng.random() < 0.9 else rng.randint(-3, -1)
             mx = rng.choice([None, rng.randint(0, 9), mn, mn + 1, mn - 1])
             case = dict(ctor="of_length", syms=syms, min=mn, max=mx, count=cnt)
         elif r < 0.6:
